@@ -75,7 +75,7 @@ def SWITCH(target_value, *args):
         return error.NOT_AVAILABLE
     argc = len(args)
     default_clause = utils.DEFAULT if (argc % 2 == 0) else args[-1]
-    for i in range(0, argc, 2):
+    for i in range(0, argc - 1, 2):
         if target_value == args[i]:
             return args[i + 1]
     if default_clause is not utils.DEFAULT:
